@@ -6,6 +6,7 @@ From Flocq Require Import Core IEEE754.BinarySingleNaN.
 From SU Require Import F32 F32Lemmas.
 From SU.Model Require Import PhaseAcc Lfo.
 From SU.Proofs Require Import LfoProofs.
+From SU.Proofs Require Import SharedProofs.
 Open Scope R_scope.
 
 Theorem C11_reset_zero : forall l, pa_acc (lfo_step l LReset) = 0%Z.
@@ -65,6 +66,69 @@ Proof. exact no_drift. Qed.
 Theorem C11_set_frequency_no_jump : forall l f, pa_acc (lfo_step l (LSetFreq f)) = pa_acc l.
 Proof. exact set_frequency_no_jump. Qed.
 
+(** the phase accumulator for any width up to 31 bits: n ticks add n increments modulo 2^TOT (no drift) *)
+Open Scope Z_scope.
+Theorem C11_pa_ticks_generic : forall TOT n p, 0 <= TOT <= 31 -> 0 <= pa_acc p < 2 ^ TOT ->
+  0 <= pa_inc p <= 2 ^ 32 - 2 ^ TOT ->
+  pa_acc (Nat.iter n (pa_tick TOT) p) = (pa_acc p + Z.of_nat n * pa_inc p) mod 2 ^ TOT.
+Proof. exact pa_ticks_acc_gen. Qed.
+Close Scope Z_scope.
+
+(** the rollover flag is set exactly when the addition carries out of the counter *)
+Open Scope Z_scope.
+Theorem C11_pa_tick_rolled : forall TOT p, 0 <= TOT <= 32 -> 0 <= pa_acc p < 2 ^ TOT ->
+  pa_last p = pa_acc p -> 0 <= pa_inc p -> pa_tick_ok p = true ->
+  pa_rolled (pa_tick TOT p) = pa_rolled p || (2 ^ TOT <=? pa_acc p + pa_inc p).
+Proof. exact pa_tick_rolled_gen. Qed.
+Close Scope Z_scope.
+
+(** a frequency change never moves the phase *)
+Open Scope Z_scope.
+Theorem C11_pa_set_frequency_keeps : forall TOT p f,
+  pa_acc (pa_set_frequency TOT p f) = pa_acc p /\
+  pa_last (pa_set_frequency TOT p f) = pa_last p /\
+  pa_rolled (pa_set_frequency TOT p f) = pa_rolled p /\
+  0 <= pa_inc (pa_set_frequency TOT p f) <= U32_MAX.
+Proof. exact pa_set_frequency_keeps. Qed.
+Close Scope Z_scope.
+
+(** reset *)
+Open Scope Z_scope.
+Theorem C11_pa_reset_spec : forall p,
+  pa_acc (pa_reset p) = 0 /\ pa_last (pa_reset p) = 0 /\ pa_rolled (pa_reset p) = false /\
+  pa_inc (pa_reset p) = pa_inc p /\ pa_fs (pa_reset p) = pa_fs p.
+Proof. exact pa_reset_spec. Qed.
+Close Scope Z_scope.
+
+(** ramp, table index and interpolation fraction are three exact views of one counter (widths up to 24 bits) *)
+Theorem C11_pa_ramp_index_fraction : forall TOT IDX p, (0 <= IDX <= TOT)%Z -> (TOT <= 24)%Z ->
+  (0 <= pa_acc p < 2 ^ TOT)%Z ->
+  R32 (pa_ramp TOT p) * IZR (2 ^ IDX) = IZR (pa_index TOT IDX p) + R32 (pa_fraction TOT IDX p).
+Proof. exact pa_ramp_index_fraction. Qed.
+
+(** the ramp is exactly counter / 2^TOT, in [0,1) *)
+Theorem C11_pa_ramp_exact : forall TOT p, (0 <= TOT <= 24)%Z -> (0 <= pa_acc p < 2 ^ TOT)%Z ->
+  fin (pa_ramp TOT p) /\
+  R32 (pa_ramp TOT p) = IZR (pa_acc p) / IZR (2 ^ TOT) /\
+  0 <= R32 (pa_ramp TOT p) < 1.
+Proof. exact pa_ramp_exact_gen. Qed.
+
+(** the fraction is exactly the low bits / 2^(TOT-IDX), in [0,1) *)
+Theorem C11_pa_fraction_exact : forall TOT IDX p, (0 <= IDX <= TOT)%Z -> (TOT <= 24)%Z ->
+  (0 <= pa_acc p < 2 ^ TOT)%Z ->
+  fin (pa_fraction TOT IDX p) /\
+  R32 (pa_fraction TOT IDX p)
+    = IZR (Z.land (pa_acc p) (2 ^ (TOT - IDX) - 1)) / IZR (2 ^ (TOT - IDX)) /\
+  0 <= R32 (pa_fraction TOT IDX p) < 1.
+Proof. exact pa_fraction_exact_gen. Qed.
+
+(** the index is below 2^IDX *)
+Open Scope Z_scope.
+Theorem C11_pa_index_range : forall TOT IDX p, 0 <= IDX <= TOT -> 0 <= pa_acc p < 2 ^ TOT ->
+  0 <= pa_index TOT IDX p < 2 ^ IDX.
+Proof. exact pa_index_range. Qed.
+Close Scope Z_scope.
+
 Print Assumptions C11_reset_zero.
 Print Assumptions C11_set_phase.
 Print Assumptions C11_set_phase_nonfinite.
@@ -73,3 +137,11 @@ Print Assumptions C11_increment.
 Print Assumptions C11_realised_frequency.
 Print Assumptions C11_no_drift.
 Print Assumptions C11_set_frequency_no_jump.
+Print Assumptions C11_pa_ticks_generic.
+Print Assumptions C11_pa_tick_rolled.
+Print Assumptions C11_pa_set_frequency_keeps.
+Print Assumptions C11_pa_reset_spec.
+Print Assumptions C11_pa_ramp_index_fraction.
+Print Assumptions C11_pa_ramp_exact.
+Print Assumptions C11_pa_fraction_exact.
+Print Assumptions C11_pa_index_range.
